@@ -34,7 +34,8 @@ Items == <<
   I("{x!r x}", "fld"), I("\\u12", "esc"), I("{x!R}", "fld"), I("\\400", "esc"), I("{x;y}", "fld"),            \* 71-75
   I("{x\n\n=}", "fldml"), I("{\n\n x \n\n}", "fldml"), I("{x:{y=}}", "fld"), I("{x\n  =\n !r\n}", "fldml"), I("{(x,\n\n y)=}", "fldml"),  \* 76-80 blank lines inside fields
   I("{f'{y:a\nb}'}", "sqin3dq"), I("{f\"{y:a\nb}\"}", "dqin3sq"), I("{f\"{f'{y}'}\"}", "dqin3sq"), I("{f\"{f'{y:{w}x}'}\"}", "dqin3sq"),                \* 81-84 nested literals
-  I("{x:{f'{y:{w}}'}}", "fldsq"), I("{f\"{f'{y}'}\":{w}}", "dqin3sq"), I("{f'{f\"{y!r:{w}}\"}'}", "sqin3dq")                                              \* 85-87
+  I("{x:{f'{y:{w}}'}}", "fldsq"), I("{f\"{f'{y}'}\":{w}}", "dqin3sq"), I("{f'{f\"{y!r:{w}}\"}'}", "sqin3dq"),                                             \* 85-87
+  I("{x # c\n=}", "fldml"), I("{x:{w}\\N{BULLET}}", "fld"), I("{x:\\N{BULLET}>{w}}", "fld"), I("{\n# a\n x # b\n + y=!r}", "fldml")                      \* 88-91 comments in debug fields, named escapes in specs
 >>
 Prefixes == <<"f", "F", "rf", "fr", "Rf", "fR", "RF", "Fr">>
 Quotes == <<"'", "\"", "'''", "\"\"\"">>
